@@ -11,7 +11,7 @@ import operator
 from fractions import Fraction as F
 
 from .. import oracle as O
-from ..core import Stats, pmap
+from ..core import Stats, guarded, pmap
 from ..world import World
 from . import amounts as A
 
@@ -37,6 +37,7 @@ def holders(x):
     return out
 
 
+@guarded('C14')
 def run_temp_path(w, path, x, st=None):
     cls = w.types['Temperature']
     out = []
@@ -67,6 +68,7 @@ def run_temp_path(w, path, x, st=None):
     return out
 
 
+@guarded('C14')
 def run_temp_cmp(w, s1, x1, s2, x2):
     cls = w.types['Temperature']
     out = []
@@ -185,7 +187,14 @@ def run_table(p, amts):
                     back = expected(b, a, want)
                     if back is not None and a != b and \
                             ((a, b) in model) != ((b, a) in model):
-                        r2 = r.convert(us[a])
+                        try:
+                            r2 = r.convert(us[a])
+                        except Exception as exc:
+                            st.violation('C14:table:round-trip-raises',
+                                         f"{case}: converting {r!r} back "
+                                         f"raised {type(exc).__name__}: "
+                                         f"{exc}", case)
+                            continue
                         st.transitions += 1
                         st.evaluations += 1
                         if O.fr(r2.amount) != x:
@@ -251,6 +260,7 @@ def replay(case):
     return [(sig, msg) for sig, (n, msg, cs) in st.viol.items()]
 
 
+@guarded('C14')
 def run_fixed(w, s1, x1, s2, x2):
     out = []
     cls = w.types['Temperature']
